@@ -325,6 +325,7 @@ def build(repo=None, jobs=None, verbose=False):
 
 
 def _prune_cache(keep, maxn=4):
+    maxn = int(os.environ.get('VERIF_CACHE_MAX', maxn))
     try:
         ents = [(os.path.getmtime(os.path.join(CACHE, d)), d)
                 for d in os.listdir(CACHE) if d != keep and '.tmp' not in d]
